@@ -466,9 +466,13 @@ void OutputManager::print_value(const ASTNode *expr) {
         write_numeric_value(io_interface_, ret.type, ret.value,
                             ret.double_value, ret.quad_value);
         return;
-    } catch (const std::exception &) {
-        // フォールバック処理へ移行
     }
+    // A runtime error raised while evaluating the argument (division by
+    // zero, index out of bounds, undefined function, ...) is NOT caught
+    // here: it used to be swallowed and the argument was then evaluated a
+    // second time by the legacy paths below, which repeated the side effects
+    // of the expression before the same error was raised again. The paths
+    // below are only for values whose evaluation is deferred.
 
     if (expr->node_type == ASTNodeType::AST_STRING_LITERAL) {
         io_interface_->write_string(expr->str_value.c_str());
@@ -1359,9 +1363,10 @@ void OutputManager::collect_formatted_arguments(
                         int_args[index] = ret.value;
                         type_args[index] = ret.type;
                     }
-                } catch (const std::exception &) {
-                    fallback_numeric();
                 }
+                // A runtime error raised by the argument is not caught here
+                // (see print_value): falling back to fallback_numeric()
+                // evaluated the argument a second time.
 
                 if (type_args[index] == TYPE_UNKNOWN &&
                     hinted_type != TYPE_UNKNOWN) {
